@@ -8,12 +8,13 @@ import (
 	"verif/internal/ev"
 )
 
-const numScenarios = 12
+const numScenarios = 14
 
 var scenarioNames = [numScenarios]string{
 	"io-across-close", "downgrade-vs-lock-clone", "reregistration", "expiry-with-locks",
 	"unlinked-open", "locks-held-on-free", "io-across-reregistration-and-expiry", "io-across-downgrade",
 	"unconfirmed-open-owner", "two-versions-one-file", "hostile-battery", "random",
+	"reclaim-matrix", "shared-lock-owner",
 }
 
 // afterStep runs the quiescent-point oracles.
@@ -387,6 +388,95 @@ func (h *hist) scenario(n int) {
 			}
 		}
 	case 11:
+	case 12: // CLAIM_PREVIOUS x delegate type x owner has the file open or not x share access
+		os := h.ensureOpen(c, 0, name, uint32(1+h.pick(3)))
+		if os == nil || !step() {
+			return
+		}
+		type combo struct{ owner, deleg int }
+		combos := []combo{{0, 1}, {0, 2}, {1, 1}, {1, 2}, {1, 0}, {0, 0}}
+		h.rng.Shuffle(len(combos), func(i, j int) { combos[i], combos[j] = combos[j], combos[i] })
+		for _, cb := range combos {
+			if os.closed || !c.usable() {
+				return
+			}
+			// Open-owner 1 must not have the file open.
+			if o := c.owners[c.ownerKey(1)]; o != nil {
+				if x, ok := o.opens[os.leaf]; ok {
+					if c.ver == 0 && !x.o.confirmed {
+						h.openConfirm(c, x.sid, fhLeaf(x.leaf), 0, "valid")
+					}
+					h.closeState(c, x.sid, fhLeaf(x.leaf), 0, "valid")
+					if !step() {
+						return
+					}
+				}
+			}
+			for _, access := range []uint32{accRead, accWrite, accBoth} {
+				variant := "claim-with-delegation"
+				if cb.deleg == 0 {
+					variant = "claim"
+				}
+				h.open(c, openParams{
+					ownerKey: c.ownerKey(cb.owner), fh: fhLeaf(os.leaf), access: access,
+					how: []int{howNoCreate, howUnchecked}[h.pick(2)], claim: claimPrevious, delegType: cb.deleg, variant: variant,
+				})
+				if !step() {
+					return
+				}
+			}
+		}
+		// The refused reclaims must not have left anything that
+		// survives CLOSE.
+		if !os.closed {
+			h.closeState(c, os.sid, fhLeaf(os.leaf), 0, "valid")
+		}
+	case 13: // one lock-owner locks one file through two open-owners
+		a := h.ensureOpen(c, 0, name, accBoth)
+		if a == nil || !step() {
+			return
+		}
+		b := h.ensureOpen(c, 1, name, uint32(1+h.pick(3)))
+		if b == nil || b.leaf != a.leaf || !step() {
+			return
+		}
+		la := h.lock(c, lockParams{newOwner: true, openSid: a.sid, loKey: c.lockOwnerKey(0), fh: fhLeaf(a.leaf), rangeIdx: 0, write: h.chance(50), variant: "valid"})
+		if la == nil || !step() {
+			return
+		}
+		lb := h.lock(c, lockParams{newOwner: true, openSid: b.sid, loKey: c.lockOwnerKey(0), fh: fhLeaf(b.leaf), rangeIdx: 1, write: h.chance(50), variant: "valid"})
+		if lb == nil || !step() {
+			return
+		}
+		if h.chance(50) {
+			h.unlock(c, lb.sid, fhLeaf(b.leaf), 0, 0, "valid")
+			if !step() {
+				return
+			}
+		}
+		// Closing one open may release the lock-owner's locks on the
+		// whole file; the other lock state keeps its cloned access.
+		h.closeState(c, b.sid, fhLeaf(b.leaf), 0, "valid")
+		if !step() {
+			return
+		}
+		h.downgrade(c, a.sid, fhLeaf(a.leaf), accRead, 0, 0, "valid")
+		if !step() {
+			return
+		}
+		h.io(c, ioWrite, la.sid, fhLeaf(a.leaf), "lock-state-id")
+		if !step() {
+			return
+		}
+		if c.ver == 0 {
+			h.releaseLockOwner(c, la.lo.key, "valid")
+		} else {
+			h.freeStateID(c, la.sid, "valid")
+		}
+		if !step() {
+			return
+		}
+		h.io(c, ioWrite, la.sid, fhLeaf(a.leaf), "lock-state-id-after-release-attempt")
 	}
 }
 
